@@ -29,7 +29,9 @@ def ef_setup(cx):
     st.assume(declare_ps(cx, t + '._phasespace'))
 
 
-def EF_valid(cx):
+def EF_valid(cx, spaced=True):
+    """class invariant of ElectricField.  spaced: bunches sit in disjoint slots of the padded buffer (needed by padBunchProfiles /
+    wakePotential only; the radiation field of main is built with spacing 0 for any number of bunches and only runs updateCSR)"""
     nx, ny, nb = ps_globals(cx)
     nmax, sp = cx.f('this._nmax', 'u64'), cx.f('this._spacing_bins', 'u64')
     z = 'this._impedance'
@@ -39,7 +41,7 @@ def EF_valid(cx):
                cx.len('this._wakepotential') == nb * nx, cx.len('this._csrspectrum') == nb * nmax, cx.len('this._csrintensity') == nb,
                cx.f(z + '._nfreqs', 'u64') == nmax, cx.len(z + '._data') == nmax,
                Ruler_valid(cx, (cx.this or 'this') + '._axis_freq', nmax),
-               Or(nb == 1, sp >= nx))
+               Or(nb == 1, sp >= nx) if spaced else z3.BoolVal(True))
 
 
 def bucket_inv():
@@ -309,7 +311,8 @@ class UpdateCSR(EFMethod):
     def requires(self, cx):
         # passive impedance: non-negative real part at every frequency (established by the impedance models, C16)
         passive = ElemInv('this._impedance._data', 're', 'real', lambda c, k, v: Implies(And(k >= 0, k < c.f('this._nmax', 'u64')), v >= 0))
-        return EFMethod.requires(self, cx) + [('passive', passive), ('df', cx.rf('this._axis_freq._delta') > 0), ('renorm', cx.rf('this._formfactorrenorm') >= 0)]
+        # no assumption on spacing or buckets: main's radiation field has spacing 0 with any number of bunches
+        return [('valid', EF_valid(cx, spaced=False)), ('passive', passive), ('df', cx.rf('this._axis_freq._delta') > 0), ('renorm', cx.rf('this._formfactorrenorm') >= 0)]
 
     def assigns(self, cx):
         nx = cx.f(PS_NX)
